@@ -256,3 +256,7 @@ unsafe fn byte_is_allowed(byte: u8, f: unsafe fn(bytes: &mut Bytes<'_>)) -> bool
         x => panic!("unexpected pos: {}", x),
     }
 }
+
+#[cfg(httparse_verif)]
+#[allow(missing_docs, dead_code)]
+pub const VERIF_PROVIDER: &str = "neon";
